@@ -1,0 +1,387 @@
+//go:build verif
+
+// Contracts checked by /verif/gowp. This file contains comments only and is compiled only
+// with -tags verif.
+
+package engine
+
+// C13 (engine, sequential contracts + lock discipline): every read of the controller table and
+// of a controller's watch table happens under the corresponding lock, every write under the
+// write lock; the engine lock is never acquired while a controller lock is held; every path
+// releases what it took. Per call: Stop removes the controller and all of its watches,
+// IsRunning answers membership, StopWatches removes exactly the watches it stopped. What
+// interleavings of these calls do is NOT decided by these contracts.
+
+//@ func (*engine.ControllerEngine).Stop
+//@ props C13
+//@ ghost eHeld int = 0
+//@ ghost cHeld int = 0
+//@ site (*sync.RWMutex).Lock($m) as e.mx.Lock
+//@   where $m == &e.mx
+//@   assert [C13:engine-lock-taken-first] eHeld == 0 && cHeld == 0
+//@   update eHeld = 2
+//@ optional site (*sync.RWMutex).RLock($m) as e.mx.RLock
+//@   where $m == &e.mx
+//@   assert [C13:engine-lock-taken-first] eHeld == 0 && cHeld == 0
+//@   update eHeld = 1
+//@ optional site (*sync.RWMutex).Unlock($m) as e.mx.Unlock
+//@   where $m == &e.mx
+//@   assert [C13:unlock-matches-lock] eHeld == 2
+//@   update eHeld = 0
+//@ optional site (*sync.RWMutex).RUnlock($m) as e.mx.RUnlock
+//@   where $m == &e.mx
+//@   assert [C13:unlock-matches-lock] eHeld == 1
+//@   update eHeld = 0
+//@ optional site (*sync.RWMutex).Lock($m) as c.mx.Lock
+//@   where $m == &c.mx
+//@   assert [C13:controller-lock-not-reentered] cHeld == 0
+//@   update cHeld = 2
+//@ optional site (*sync.RWMutex).RLock($m) as c.mx.RLock
+//@   where $m == &c.mx
+//@   assert [C13:controller-lock-not-reentered] cHeld == 0
+//@   update cHeld = 1
+//@ optional site (*sync.RWMutex).Unlock($m) as c.mx.Unlock
+//@   where $m == &c.mx
+//@   assert [C13:unlock-matches-lock] cHeld == 2
+//@   update cHeld = 0
+//@ optional site (*sync.RWMutex).RUnlock($m) as c.mx.RUnlock
+//@   where $m == &c.mx
+//@   assert [C13:unlock-matches-lock] cHeld == 1
+//@   update cHeld = 0
+//@ optional site builtin.maplookup($mp, _) as read-controllers
+//@   where $mp == e.controllers
+//@   assert [C13:controllers-read-under-lock] eHeld != 0
+//@ optional site builtin.mapupdate($mp, _, _) as write-controllers
+//@   where $mp == e.controllers
+//@   assert [C13:controllers-written-under-write-lock] eHeld == 2
+//@ optional site builtin.delete($mp, _) as delete-controllers
+//@   where $mp == e.controllers
+//@   assert [C13:controllers-written-under-write-lock] eHeld == 2
+//@ optional site builtin.maplookup($mp, _) as read-sources
+//@   where $mp == c.sources
+//@   assert [C13:sources-read-under-lock] cHeld != 0
+//@ optional site builtin.maprange($mp) as range-sources
+//@   where $mp == c.sources
+//@   assert [C13:sources-read-under-lock] cHeld != 0
+//@ optional site builtin.mapupdate($mp, _, _) as write-sources
+//@   where $mp == c.sources
+//@   assert [C13:sources-written-under-write-lock] cHeld == 2
+//@ optional site builtin.delete($mp, _) as delete-sources
+//@   where $mp == c.sources
+//@   assert [C13:sources-written-under-write-lock] cHeld == 2
+//@ ensures [C13:all-locks-released] eHeld == 0 && cHeld == 0
+//@ loop range c.sources
+//@   invariant [C13:stopped-sources-removed] forall k:Key :: k in visited ==> !(k in c.sources)
+//@   invariant [C13:locks-held-while-stopping] eHeld == 2 && cHeld == 2
+//@ site (*engine.StoppableSource).Stop(_, _)
+//@   assert [C13:sources-stopped-under-write-lock] cHeld == 2
+//@ ensures [C13:stopped-controller-is-absent] err == nil ==> !(name in e.controllers)
+
+//@ func (*engine.ControllerEngine).IsRunning
+//@ props C13
+//@ ghost eHeld int = 0
+//@ ghost cHeld int = 0
+//@ optional site (*sync.RWMutex).Lock($m) as e.mx.Lock
+//@   where $m == &e.mx
+//@   assert [C13:engine-lock-taken-first] eHeld == 0 && cHeld == 0
+//@   update eHeld = 2
+//@ optional site (*sync.RWMutex).RLock($m) as e.mx.RLock
+//@   where $m == &e.mx
+//@   assert [C13:engine-lock-taken-first] eHeld == 0 && cHeld == 0
+//@   update eHeld = 1
+//@ optional site (*sync.RWMutex).Unlock($m) as e.mx.Unlock
+//@   where $m == &e.mx
+//@   assert [C13:unlock-matches-lock] eHeld == 2
+//@   update eHeld = 0
+//@ optional site (*sync.RWMutex).RUnlock($m) as e.mx.RUnlock
+//@   where $m == &e.mx
+//@   assert [C13:unlock-matches-lock] eHeld == 1
+//@   update eHeld = 0
+//@ optional site (*sync.RWMutex).Lock($m) as c.mx.Lock
+//@   where $m == &c.mx
+//@   assert [C13:controller-lock-not-reentered] cHeld == 0
+//@   update cHeld = 2
+//@ optional site (*sync.RWMutex).RLock($m) as c.mx.RLock
+//@   where $m == &c.mx
+//@   assert [C13:controller-lock-not-reentered] cHeld == 0
+//@   update cHeld = 1
+//@ optional site (*sync.RWMutex).Unlock($m) as c.mx.Unlock
+//@   where $m == &c.mx
+//@   assert [C13:unlock-matches-lock] cHeld == 2
+//@   update cHeld = 0
+//@ optional site (*sync.RWMutex).RUnlock($m) as c.mx.RUnlock
+//@   where $m == &c.mx
+//@   assert [C13:unlock-matches-lock] cHeld == 1
+//@   update cHeld = 0
+//@ optional site builtin.maplookup($mp, _) as read-controllers
+//@   where $mp == e.controllers
+//@   assert [C13:controllers-read-under-lock] eHeld != 0
+//@ optional site builtin.mapupdate($mp, _, _) as write-controllers
+//@   where $mp == e.controllers
+//@   assert [C13:controllers-written-under-write-lock] eHeld == 2
+//@ optional site builtin.delete($mp, _) as delete-controllers
+//@   where $mp == e.controllers
+//@   assert [C13:controllers-written-under-write-lock] eHeld == 2
+//@ optional site builtin.maplookup($mp, _) as read-sources
+//@   where $mp == c.sources
+//@   assert [C13:sources-read-under-lock] cHeld != 0
+//@ optional site builtin.maprange($mp) as range-sources
+//@   where $mp == c.sources
+//@   assert [C13:sources-read-under-lock] cHeld != 0
+//@ optional site builtin.mapupdate($mp, _, _) as write-sources
+//@   where $mp == c.sources
+//@   assert [C13:sources-written-under-write-lock] cHeld == 2
+//@ optional site builtin.delete($mp, _) as delete-sources
+//@   where $mp == c.sources
+//@   assert [C13:sources-written-under-write-lock] cHeld == 2
+//@ ensures [C13:all-locks-released] eHeld == 0 && cHeld == 0
+//@ ensures [C13:is-running-is-membership] result == (name in e.controllers)
+
+//@ func (*engine.ControllerEngine).GetWatches
+//@ props C13
+//@ ghost eHeld int = 0
+//@ ghost cHeld int = 0
+//@ optional site (*sync.RWMutex).Lock($m) as e.mx.Lock
+//@   where $m == &e.mx
+//@   assert [C13:engine-lock-taken-first] eHeld == 0 && cHeld == 0
+//@   update eHeld = 2
+//@ optional site (*sync.RWMutex).RLock($m) as e.mx.RLock
+//@   where $m == &e.mx
+//@   assert [C13:engine-lock-taken-first] eHeld == 0 && cHeld == 0
+//@   update eHeld = 1
+//@ optional site (*sync.RWMutex).Unlock($m) as e.mx.Unlock
+//@   where $m == &e.mx
+//@   assert [C13:unlock-matches-lock] eHeld == 2
+//@   update eHeld = 0
+//@ optional site (*sync.RWMutex).RUnlock($m) as e.mx.RUnlock
+//@   where $m == &e.mx
+//@   assert [C13:unlock-matches-lock] eHeld == 1
+//@   update eHeld = 0
+//@ optional site (*sync.RWMutex).Lock($m) as c.mx.Lock
+//@   where $m == &c.mx
+//@   assert [C13:controller-lock-not-reentered] cHeld == 0
+//@   update cHeld = 2
+//@ optional site (*sync.RWMutex).RLock($m) as c.mx.RLock
+//@   where $m == &c.mx
+//@   assert [C13:controller-lock-not-reentered] cHeld == 0
+//@   update cHeld = 1
+//@ optional site (*sync.RWMutex).Unlock($m) as c.mx.Unlock
+//@   where $m == &c.mx
+//@   assert [C13:unlock-matches-lock] cHeld == 2
+//@   update cHeld = 0
+//@ optional site (*sync.RWMutex).RUnlock($m) as c.mx.RUnlock
+//@   where $m == &c.mx
+//@   assert [C13:unlock-matches-lock] cHeld == 1
+//@   update cHeld = 0
+//@ optional site builtin.maplookup($mp, _) as read-controllers
+//@   where $mp == e.controllers
+//@   assert [C13:controllers-read-under-lock] eHeld != 0
+//@ optional site builtin.mapupdate($mp, _, _) as write-controllers
+//@   where $mp == e.controllers
+//@   assert [C13:controllers-written-under-write-lock] eHeld == 2
+//@ optional site builtin.delete($mp, _) as delete-controllers
+//@   where $mp == e.controllers
+//@   assert [C13:controllers-written-under-write-lock] eHeld == 2
+//@ optional site builtin.maplookup($mp, _) as read-sources
+//@   where $mp == c.sources
+//@   assert [C13:sources-read-under-lock] cHeld != 0
+//@ optional site builtin.maprange($mp) as range-sources
+//@   where $mp == c.sources
+//@   assert [C13:sources-read-under-lock] cHeld != 0
+//@ optional site builtin.mapupdate($mp, _, _) as write-sources
+//@   where $mp == c.sources
+//@   assert [C13:sources-written-under-write-lock] cHeld == 2
+//@ optional site builtin.delete($mp, _) as delete-sources
+//@   where $mp == c.sources
+//@   assert [C13:sources-written-under-write-lock] cHeld == 2
+//@ ensures [C13:all-locks-released] eHeld == 0 && cHeld == 0
+//@ loop range c.sources
+//@   invariant [C13:read-lock-held-while-listing] cHeld == 1 && eHeld == 0
+
+//@ func (*engine.ControllerEngine).StopWatches
+//@ props C13
+//@ ghost eHeld int = 0
+//@ ghost cHeld int = 0
+//@ optional site (*sync.RWMutex).Lock($m) as e.mx.Lock
+//@   where $m == &e.mx
+//@   assert [C13:engine-lock-taken-first] eHeld == 0 && cHeld == 0
+//@   update eHeld = 2
+//@ optional site (*sync.RWMutex).RLock($m) as e.mx.RLock
+//@   where $m == &e.mx
+//@   assert [C13:engine-lock-taken-first] eHeld == 0 && cHeld == 0
+//@   update eHeld = 1
+//@ optional site (*sync.RWMutex).Unlock($m) as e.mx.Unlock
+//@   where $m == &e.mx
+//@   assert [C13:unlock-matches-lock] eHeld == 2
+//@   update eHeld = 0
+//@ optional site (*sync.RWMutex).RUnlock($m) as e.mx.RUnlock
+//@   where $m == &e.mx
+//@   assert [C13:unlock-matches-lock] eHeld == 1
+//@   update eHeld = 0
+//@ optional site (*sync.RWMutex).Lock($m) as c.mx.Lock
+//@   where $m == &c.mx
+//@   assert [C13:controller-lock-not-reentered] cHeld == 0
+//@   update cHeld = 2
+//@ optional site (*sync.RWMutex).RLock($m) as c.mx.RLock
+//@   where $m == &c.mx
+//@   assert [C13:controller-lock-not-reentered] cHeld == 0
+//@   update cHeld = 1
+//@ optional site (*sync.RWMutex).Unlock($m) as c.mx.Unlock
+//@   where $m == &c.mx
+//@   assert [C13:unlock-matches-lock] cHeld == 2
+//@   update cHeld = 0
+//@ optional site (*sync.RWMutex).RUnlock($m) as c.mx.RUnlock
+//@   where $m == &c.mx
+//@   assert [C13:unlock-matches-lock] cHeld == 1
+//@   update cHeld = 0
+//@ optional site builtin.maplookup($mp, _) as read-controllers
+//@   where $mp == e.controllers
+//@   assert [C13:controllers-read-under-lock] eHeld != 0
+//@ optional site builtin.mapupdate($mp, _, _) as write-controllers
+//@   where $mp == e.controllers
+//@   assert [C13:controllers-written-under-write-lock] eHeld == 2
+//@ optional site builtin.delete($mp, _) as delete-controllers
+//@   where $mp == e.controllers
+//@   assert [C13:controllers-written-under-write-lock] eHeld == 2
+//@ optional site builtin.maplookup($mp, _) as read-sources
+//@   where $mp == c.sources
+//@   assert [C13:sources-read-under-lock] cHeld != 0
+//@ optional site builtin.maprange($mp) as range-sources
+//@   where $mp == c.sources
+//@   assert [C13:sources-read-under-lock] cHeld != 0
+//@ optional site builtin.mapupdate($mp, _, _) as write-sources
+//@   where $mp == c.sources
+//@   assert [C13:sources-written-under-write-lock] cHeld == 2
+//@ optional site builtin.delete($mp, _) as delete-sources
+//@   where $mp == c.sources
+//@   assert [C13:sources-written-under-write-lock] cHeld == 2
+//@ ensures [C13:all-locks-released] eHeld == 0 && cHeld == 0
+//@ loop range ws #1
+//@   invariant [C13:write-lock-held-while-stopping] cHeld == 2 && eHeld == 0 && 0 <= stopped
+//@ site (*engine.StoppableSource).Stop(_, _)
+//@   assert [C13:sources-stopped-under-write-lock] cHeld == 2
+
+//@ func (*engine.ControllerEngine).StartWatches
+//@ props C13
+//@ ghost eHeld int = 0
+//@ ghost cHeld int = 0
+//@ optional site (*sync.RWMutex).Lock($m) as e.mx.Lock
+//@   where $m == &e.mx
+//@   assert [C13:engine-lock-taken-first] eHeld == 0 && cHeld == 0
+//@   update eHeld = 2
+//@ optional site (*sync.RWMutex).RLock($m) as e.mx.RLock
+//@   where $m == &e.mx
+//@   assert [C13:engine-lock-taken-first] eHeld == 0 && cHeld == 0
+//@   update eHeld = 1
+//@ optional site (*sync.RWMutex).Unlock($m) as e.mx.Unlock
+//@   where $m == &e.mx
+//@   assert [C13:unlock-matches-lock] eHeld == 2
+//@   update eHeld = 0
+//@ optional site (*sync.RWMutex).RUnlock($m) as e.mx.RUnlock
+//@   where $m == &e.mx
+//@   assert [C13:unlock-matches-lock] eHeld == 1
+//@   update eHeld = 0
+//@ optional site (*sync.RWMutex).Lock($m) as c.mx.Lock
+//@   where $m == &c.mx
+//@   assert [C13:controller-lock-not-reentered] cHeld == 0
+//@   update cHeld = 2
+//@ optional site (*sync.RWMutex).RLock($m) as c.mx.RLock
+//@   where $m == &c.mx
+//@   assert [C13:controller-lock-not-reentered] cHeld == 0
+//@   update cHeld = 1
+//@ optional site (*sync.RWMutex).Unlock($m) as c.mx.Unlock
+//@   where $m == &c.mx
+//@   assert [C13:unlock-matches-lock] cHeld == 2
+//@   update cHeld = 0
+//@ optional site (*sync.RWMutex).RUnlock($m) as c.mx.RUnlock
+//@   where $m == &c.mx
+//@   assert [C13:unlock-matches-lock] cHeld == 1
+//@   update cHeld = 0
+//@ optional site builtin.maplookup($mp, _) as read-controllers
+//@   where $mp == e.controllers
+//@   assert [C13:controllers-read-under-lock] eHeld != 0
+//@ optional site builtin.mapupdate($mp, _, _) as write-controllers
+//@   where $mp == e.controllers
+//@   assert [C13:controllers-written-under-write-lock] eHeld == 2
+//@ optional site builtin.delete($mp, _) as delete-controllers
+//@   where $mp == e.controllers
+//@   assert [C13:controllers-written-under-write-lock] eHeld == 2
+//@ optional site builtin.maplookup($mp, _) as read-sources
+//@   where $mp == c.sources
+//@   assert [C13:sources-read-under-lock] cHeld != 0
+//@ optional site builtin.maprange($mp) as range-sources
+//@   where $mp == c.sources
+//@   assert [C13:sources-read-under-lock] cHeld != 0
+//@ optional site builtin.mapupdate($mp, _, _) as write-sources
+//@   where $mp == c.sources
+//@   assert [C13:sources-written-under-write-lock] cHeld == 2
+//@ optional site builtin.delete($mp, _) as delete-sources
+//@   where $mp == c.sources
+//@   assert [C13:sources-written-under-write-lock] cHeld == 2
+//@ ensures [C13:all-locks-released] eHeld == 0 && cHeld == 0
+//@ loop range ws #2
+//@   invariant [C13:write-lock-held-while-starting] cHeld == 2 && eHeld == 0
+//@ site (controller.TypedController).Watch(_, _)
+//@   assert [C13:watch-started-under-write-lock] cHeld == 2
+//@   assert [C13:watch-started-only-if-missing-or-informer-gone] !((wid in c.sources) && activeInformer[wid.GVK])
+
+//@ func (*engine.ControllerEngine).Start
+//@ props C13
+//@ ghost eHeld int = 0
+//@ ghost cHeld int = 0
+//@ site (*sync.RWMutex).Lock($m) as e.mx.Lock
+//@   where $m == &e.mx
+//@   assert [C13:engine-lock-taken-first] eHeld == 0 && cHeld == 0
+//@   update eHeld = 2
+//@ optional site (*sync.RWMutex).RLock($m) as e.mx.RLock
+//@   where $m == &e.mx
+//@   assert [C13:engine-lock-taken-first] eHeld == 0 && cHeld == 0
+//@   update eHeld = 1
+//@ optional site (*sync.RWMutex).Unlock($m) as e.mx.Unlock
+//@   where $m == &e.mx
+//@   assert [C13:unlock-matches-lock] eHeld == 2
+//@   update eHeld = 0
+//@ optional site (*sync.RWMutex).RUnlock($m) as e.mx.RUnlock
+//@   where $m == &e.mx
+//@   assert [C13:unlock-matches-lock] eHeld == 1
+//@   update eHeld = 0
+//@ optional site (*sync.RWMutex).Lock($m) as c.mx.Lock
+//@   where $m == &c.mx
+//@   assert [C13:controller-lock-not-reentered] cHeld == 0
+//@   update cHeld = 2
+//@ optional site (*sync.RWMutex).RLock($m) as c.mx.RLock
+//@   where $m == &c.mx
+//@   assert [C13:controller-lock-not-reentered] cHeld == 0
+//@   update cHeld = 1
+//@ optional site (*sync.RWMutex).Unlock($m) as c.mx.Unlock
+//@   where $m == &c.mx
+//@   assert [C13:unlock-matches-lock] cHeld == 2
+//@   update cHeld = 0
+//@ optional site (*sync.RWMutex).RUnlock($m) as c.mx.RUnlock
+//@   where $m == &c.mx
+//@   assert [C13:unlock-matches-lock] cHeld == 1
+//@   update cHeld = 0
+//@ optional site builtin.maplookup($mp, _) as read-controllers
+//@   where $mp == e.controllers
+//@   assert [C13:controllers-read-under-lock] eHeld != 0
+//@ optional site builtin.mapupdate($mp, _, _) as write-controllers
+//@   where $mp == e.controllers
+//@   assert [C13:controllers-written-under-write-lock] eHeld == 2
+//@ optional site builtin.delete($mp, _) as delete-controllers
+//@   where $mp == e.controllers
+//@   assert [C13:controllers-written-under-write-lock] eHeld == 2
+//@ optional site builtin.maplookup($mp, _) as read-sources
+//@   where $mp == c.sources
+//@   assert [C13:sources-read-under-lock] cHeld != 0
+//@ optional site builtin.maprange($mp) as range-sources
+//@   where $mp == c.sources
+//@   assert [C13:sources-read-under-lock] cHeld != 0
+//@ optional site builtin.mapupdate($mp, _, _) as write-sources
+//@   where $mp == c.sources
+//@   assert [C13:sources-written-under-write-lock] cHeld == 2
+//@ optional site builtin.delete($mp, _) as delete-sources
+//@   where $mp == c.sources
+//@   assert [C13:sources-written-under-write-lock] cHeld == 2
+//@ ensures [C13:all-locks-released] eHeld == 0 && cHeld == 0
+//@ ensures [C13:started-controller-is-present] err == nil ==> (name in e.controllers)
+
